@@ -113,6 +113,14 @@ func (e *Ecosystem) NewVersion(version string) (*Version, error) {
 	return pv, nil
 }
 
+// bareDevRank is 0 for a dev release without pre-release and post-release parts, 1 otherwise
+func bareDevRank(v *Version) int {
+	if v.prerelease == "" && v.postrelease == -1 && v.dev != -1 {
+		return 0
+	}
+	return 1
+}
+
 // String returns the string representation of the version
 func (v *Version) String() string {
 	return v.original
@@ -127,6 +135,12 @@ func (v *Version) Compare(other *Version) int {
 	releaseComparison := compareReleaseVersions(v.release, other.release)
 	if releaseComparison != 0 {
 		return releaseComparison
+	}
+
+	// A dev release of the bare version (1.0.dev1: no pre-release and no post-release part)
+	// sorts before every pre-release of that version
+	if bareDevComparison := compareInt(bareDevRank(v), bareDevRank(other)); bareDevComparison != 0 {
+		return bareDevComparison
 	}
 
 	preComparison := comparePrereleases(v.prerelease, v.preNumber, other.prerelease, other.preNumber)
